@@ -7,6 +7,9 @@ import GormModel.Lemmas.Migrate
 import GormModel.Lemmas.MigrateReorder
 import GormModel.Lemmas.MigrateReach
 import GormModel.Gen.MigrateOptFacts
+import GormModel.Model.MigrateJoin
+import GormModel.Lemmas.MigrateJoin
+import GormModel.Gen.MigrateJoinFacts
 namespace Gorm.Mig
 
 /-- CORE LEMMA.  For EVERY field declaration, MigrateColumn on the column report of a faithful dialect issues nothing:
@@ -660,5 +663,55 @@ theorem C20_reorder_join_behind_dependency_counterexample :
 example : reorderModelsOpt { disableFK := true, ignoreRel := false } exRels [exArticle] true =
     [exAuthor, exArticle, exTag, exArticleTags] := exRels_disableFK
 example : reorderModelsOpt { disableFK := true, ignoreRel := true } exRels [exArticle] true = [exArticle] := exRels_ignoreRel
+
+/-! ### round 3: what an auto-created many2many join table inherits from the columns it references -/
+
+/-- REGENERATED FACTS (extract/gen_c20_join.go, every run): schema.buildMany2ManyRelation builds a join-table field in
+    exactly two places — the loop over the owner's key fields and the loop over the referenced fields — and BOTH copy the
+    source field's struct tag through `removeSettingFromTag(appendSettingFromTag(tag, "primaryKey"), …)` with the SAME
+    literal clean-up list `column, autoincrement, index, unique, uniqueindex`, which is the list `joinStrip` the model
+    `joinCol` (and every theorem below) uses; the only other field of the generated struct is the ignored back pointer.
+    A shortened or reordered list on either side breaks this obligation. -/
+theorem C20_join_strip_lists :
+    Gen.joinTagCalls =
+      [{ source := "ownField.StructField.Tag", appended := String.ofList joinAppend,
+         names := joinStrip.map String.ofList, literal := true },
+       { source := "relField.StructField.Tag", appended := String.ofList joinAppend,
+         names := joinStrip.map String.ofList, literal := true }] ∧
+    Gen.joinTagOther = ["`gorm:\"-\"`"] := by decide
+
+set_option maxRecDepth 20000 in
+/-- REGENERATED FACTS: the helper bodies the model transcribes (`removeSetting` = one `ReplaceAllString` of the unanchored,
+    case-insensitive pattern per name with replacement `${1}${5}`; `appendSetting` = the `strings.Contains` guard and the
+    `gorm:"%s;%s"` rebuild) and the readers of the resulting settings (`Field.Unique` = CheckTruth(UNIQUE) feeding
+    ParseUniqueConstraints, the INDEX / UNIQUEINDEX gate of ParseIndexes, `Field.PrimaryKey`) are the ones in the source. -/
+theorem C20_join_tag_helpers_transcribed :
+    Gen.removeSettingBody =
+      ["for _, name := range names { tag = reflect.StructTag(regexp.MustCompile(`(?i)(gorm:.*?)(`+name+`(:.*?)?)(;|(\"))`).ReplaceAllString(string(tag), \"${1}${5}\")) }",
+       "return tag"] ∧
+    Gen.appendSettingBody =
+      ["t := tag.Get(\"gorm\")", "if strings.Contains(t, value) { return tag }",
+       "return reflect.StructTag(fmt.Sprintf(`gorm:\"%s;%s\"`, value, t))"] ∧
+    Gen.uniqueReaders =
+      [("Field.TagSettings", "tagSetting"),
+       ("Field.PrimaryKey", "utils.CheckTruth(tagSetting[\"PRIMARYKEY\"], tagSetting[\"PRIMARY_KEY\"])"),
+       ("Field.AutoIncrement", "utils.CheckTruth(tagSetting[\"AUTOINCREMENT\"])"),
+       ("Field.Unique", "utils.CheckTruth(tagSetting[\"UNIQUE\"])"),
+       ("ParseUniqueConstraints.if", "field.Unique"),
+       ("ParseIndexes.if", "field.TagSettings[\"INDEX\"] != \"\" || field.TagSettings[\"UNIQUEINDEX\"] != \"\"")] := by decide
+
+set_option maxRecDepth 20000 in
+/-- the m8 shape, computed by the model: `References:` a column tagged `uniqueIndex` / `unique` / `uniqueIndex:name` with
+    further settings — the join column is a plain member of the composite primary key, neither unique nor indexed -/
+theorem C20_join_column_examples :
+    (joinCol joinStrip (gormTag "uniqueIndex".toList)).unique = false ∧
+    (joinCol joinStrip (gormTag "unique".toList)).unique = false ∧
+    (joinCol joinStrip (gormTag "size:30;unique;not null".toList)).unique = false ∧
+    (joinCol joinStrip (gormTag "uniqueIndex:ux_c;size:40".toList)).tag = "gorm:\"primaryKey;uniquesize:40\"".toList ∧
+    (joinCol joinStrip (gormTag "index:ix,unique".toList)).indexed = false ∧
+    (joinCol joinStrip (gormTag "uniqueIndex".toList)).primaryKey = true ∧
+    -- without `unique` in the list (the seeded shape) the column would stay unique:
+    (joinCol (["column", "autoincrement", "index", "uniqueindex"].map String.toList) (gormTag "uniqueIndex".toList)).unique = true := by
+  decide
 
 end Gorm.Mig
